@@ -91,11 +91,10 @@ class G:
     def two(self, fam):
         """two distinct keys (self-aliasing commands hang; they are tested under a watchdog in C06)"""
         a = self.key(fam)
-        for _ in range(20):
-            b = self.key(fam)
-            if b != a:
-                return a, b
-        return a, hx(b"other")
+        b = self.key(fam)
+        if self.r.random() < 0.08:
+            b = a               # the same key as source and destination
+        return a, b
 
     # ---- families ---------------------------------------------------------------------------
     def strings(self):
@@ -134,7 +133,7 @@ class G:
         k = self.key(fam, wrong=0.3)
         a, b = self.two(fam)
         ops = [
-            lambda: "Del " + " ".join(sorted({self.key(fam, 0.3) for _ in range(r.randrange(1, 4))})),   # no duplicates: Del k k on an expired k self-deadlocks (C06)
+            lambda: "Del " + " ".join(self.key(fam, 0.3) for _ in range(r.randrange(1, 4))),
             lambda: "Unlink " + k,
             lambda: "Exists " + " ".join(self.key(fam, 0.3) for _ in range(r.randrange(1, 4))),
             lambda: f"Type {k}",
